@@ -235,6 +235,12 @@ fn encode_structural(r: &mut Rng, c: &mut Counters, tag: &str, mut data: Vec<u8>
     data
 }
 
+thread_local! {
+    /// helper object numbers (lengths, containers, cross-reference streams) that the last `write_file*` call on this thread
+    /// took from the gaps BELOW the highest object number (read by `compare_abstract`)
+    pub static LOW_HELPER_IDS: std::cell::RefCell<Vec<u32>> = std::cell::RefCell::new(vec![]);
+}
+
 pub struct Written { pub bytes: Vec<u8>, pub startxrefs: Vec<usize>, pub containers: Vec<u32> }
 
 /// write revisions[0] as the base file and each later revision as an appended update
@@ -257,6 +263,13 @@ pub fn write_file_with(r: &mut Rng, c: &mut Counters, style: &Style, version: &s
     let mut max_num: u32 = 0;
     for rev in revisions { for (n, _) in rev.objects.keys() { max_num = max_num.max(*n); } }
     let mut next_free = max_num + 1;   // numbers for helper objects (lengths, containers, xref streams)
+    // numbers below the highest object number that no revision uses: half of the files take helper numbers from here first,
+    // so that the HIGHEST number of the file may belong to an ordinary object or to a member of an object stream
+    let mut low_free: Vec<u32> = { let used: std::collections::BTreeSet<u32> = revisions.iter().flat_map(|rv| rv.objects.keys().map(|k| k.0)).collect(); (1..max_num).filter(|n| !used.contains(n)).collect() };
+    let use_low = style.xref == XrefStyle::Stream && r.chance(1, 2);
+    if !use_low { low_free.clear(); } else { r.shuffle(&mut low_free); if !low_free.is_empty() { hit(c, "file.helper_numbers_below_max"); } }
+    LOW_HELPER_IDS.with(|l| l.borrow_mut().clear());
+    macro_rules! alloc { () => {{ if let Some(v) = low_free.pop() { LOW_HELPER_IDS.with(|l| l.borrow_mut().push(v)); v } else { let v = next_free; next_free += 1; v } }}; }
     for (ri, rev) in revisions.iter().enumerate() {
         if ri > 0 { if style.lexical_freedom && r.chance(1, 2) { out.push(b'\n'); } hit(c, "file.update_revision"); }
         // entries of this revision: num -> (kind, a, b): 1 = offset/gen, 2 = container/index
@@ -284,7 +297,7 @@ pub fn write_file_with(r: &mut Rng, c: &mut Counters, style: &Style, version: &s
                     if style.indirect_length && w.r.chance(1, 2) {
                         // two streams of equal length may legally share one Length object
                         let shared = pending_lengths.iter().find(|(_, l)| *l == data.len() as i64).map(|(id, _)| *id).filter(|_| w.r.chance(1, 2));
-                        let lid = match shared { Some(id) => { hit(w.c, "stream.indirect_length_shared"); id } None => { let id = next_free; next_free += 1; pending_lengths.push((id, data.len() as i64)); id } };
+                        let lid = match shared { Some(id) => { hit(w.c, "stream.indirect_length_shared"); id } None => { let id = alloc!(); pending_lengths.push((id, data.len() as i64)); id } };
                         d.set("Length", Object::Reference((lid, 0))); hit(w.c, "stream.indirect_length");
                     } else { d.set("Length", Object::Integer(data.len() as i64)); }
                     w.dict(&d); w.opt_ws();
@@ -301,7 +314,7 @@ pub fn write_file_with(r: &mut Rng, c: &mut Counters, style: &Style, version: &s
         // the integers that indirect Lengths point to: plain objects, or (legal and unusual) members of an object stream of their own
         let lengths_in_stm = !pending_lengths.is_empty() && style.objstm && style.xref == XrefStyle::Stream && objstm_in(ri) && r.chance(1, 2);
         if lengths_in_stm {
-            let cid = next_free; next_free += 1; containers.push(cid);
+            let cid = alloc!(); containers.push(cid);
             let mut body: Vec<u8> = vec![]; let mut index = String::new();
             for (k, (lid, len)) in pending_lengths.iter().enumerate() {
                 index.push_str(&format!("{} {} ", lid, body.len()));
@@ -324,7 +337,7 @@ pub fn write_file_with(r: &mut Rng, c: &mut Counters, style: &Style, version: &s
         if !in_stm.is_empty() {
             let per = 1 + r.usize(in_stm.len());
             for chunk in in_stm.chunks(per) {
-                let cid = next_free; next_free += 1; containers.push(cid);
+                let cid = alloc!(); containers.push(cid);
                 let mut body: Vec<u8> = vec![]; let mut index = String::new();
                 for (k, id) in chunk.iter().enumerate() {
                     index.push_str(&format!("{} {} ", id.0, body.len()));
@@ -388,6 +401,8 @@ pub fn write_file_with(r: &mut Rng, c: &mut Counters, style: &Style, version: &s
                 if style.lexical_freedom && r.chance(1, 4) {
                     let mut used: std::collections::BTreeSet<u32> = std::collections::BTreeSet::new();
                     for rv in revisions { for (n, _) in rv.objects.keys() { used.insert(*n); } }
+                    LOW_HELPER_IDS.with(|l| for v in l.borrow().iter() { used.insert(*v); });
+                    for v in &low_free { used.insert(*v); }   // numbers a later revision may still take for its helpers
                     let free: Vec<u32> = (1..=max_num).filter(|n| !used.contains(n)).collect();
                     let uid = if free.is_empty() { let u = next_free; next_free += 1; u } else { *r.pick(&free) };
                     let t = 3 + r.below(253) as u8;
@@ -395,7 +410,7 @@ pub fn write_file_with(r: &mut Rng, c: &mut Counters, style: &Style, version: &s
                     entries.insert(uid, (t, r.below(1000), b));
                     hit(c, "xrefstm_unknown_row");
                 }
-                let xid = next_free; next_free += 1;
+                let xid = alloc!();
                 entries.insert(xid, (1, xref_pos as u64, 0));
                 let size = next_free.max(max_num + 1);
                 // widths: enough for the largest values, randomly wider
